@@ -190,6 +190,19 @@ def noIntStrMs : ML → Bool
   | .cons t ms => noIntStrM t && noIntStrMs ms
 end
 
+/-- `SvKillMsg` and `sv_kill_msg` name the same thing -/
+def normVariant (s : String) : List Char := s.toList.map Char.toLower
+def normSnake (s : String) : List Char := s.toList.filter (· != '_')
+
+/-- The arms of a generated dispatch function (`decode_msg`, `decode_obj`; extracted from the Rust
+in source order: the identifier the arm's constant stands for, and the variant / struct it
+decodes) are the descriptions, in order, each with its identifier. -/
+def dispatchOk (rust : List (Ident × String)) (specs : List Spec) : Bool :=
+  rust.map (fun x => (x.1, normVariant x.2)) == specs.map (fun s => (s.id, normSnake s.name))
+
+def connlessDispatchOk (rust : List (List UInt8 × String)) (specs : List ConnlessSpec) : Bool :=
+  rust.map (fun x => (x.1, normVariant x.2)) == specs.map (fun s => (s.id, normSnake s.name))
+
 /-- identifiers `encode_id` accepts and `decode_id` gives back -/
 def idOk : Ident → Bool
   | .ordinal i => decide (0 < i) && decide (i < 2 ^ 30)
